@@ -1,8 +1,65 @@
-(* C05 — property theorems (statements only; proofs live in Proofs.v). *)
-From Coq Require Import List ZArith QArith Bool.
-Require Import QV.C05.Model QV.C05.Proofs.
+(* C05 — property theorems (statements only; proofs live in Proofs*.v). *)
+From Coq Require Import List ZArith QArith Bool Sorting.Permutation.
+Require Import QV.C05.Model QV.C05.Spec QV.C05.Proofs QV.C05.Proofs2 QV.C05.Proofs3.
 Import ListNotations.
+Open Scope Z_scope.
 
-Theorem C05_chain_order : forall G1 G2 f c, chain_apply (G1 ++ G2) f c = chain_apply G2 (chain_apply G1 f) c.
-Proof. exact chain_apply_app. Qed.
-Print Assumptions C05_chain_order.
+(* to_waveform (the waveform a collapsed sub-program is turned into) plays exactly the program, for every
+   well-formed program tree (any depth, any repetition counts), every channel and every time in [0, duration) *)
+Theorem C05_to_waveform_plays_program : forall l, lok l ->
+  wdur (to_waveform l) = ldur l /\ forall c t, 0 <= t < ldur l -> usample (to_waveform l) c t = play l c t.
+Proof. exact to_waveform_thm. Qed.
+Print Assumptions C05_to_waveform_plays_program.
+
+(* global transformation: T applied pointwise to the untransformed output, same duration — for every template tree,
+   every set S of collapsed nodes and every chain G, under the executable guard that no ParallelChannelPT overwrites a
+   channel G touches *)
+Theorem C05_global_transformation : forall p S G, guard_C05_parallel_order G p = true ->
+  match compile p S G, compile p S [] with
+  | Some l, Some l' => ldur l = ldur l' /\
+                       forall c t, 0 <= t < ldur l -> play l c t = chain_apply G (fun c' => play l' c' t) c
+  | None, None => True
+  | _, _ => False
+  end.
+Proof. exact global_transformation_thm. Qed.
+Print Assumptions C05_global_transformation.
+
+(* without the guard the faithful model of the unchanged code violates it: (ConstantPT || B=1) under a scaling of B *)
+Theorem C05_global_transformation_refuted : exists p S G, ~ transformed_play p S G.
+Proof. exists w_par, [], [TScale [(1%N, 2%Q); (2%N, 2%Q)]]. exact refute_global. Qed.
+Print Assumptions C05_global_transformation_refuted.
+
+(* single waveform.  Full statement (voltages, duration, windows) under the guard: *)
+Definition C05_single_waveform_statement : Prop := forall p S, guard_C05_single_waveform S p = true ->
+  match compile p S [], compile p [] [] with
+  | Some l, Some l' => ldur l = ldur l' /\ Permutation (windows l) (windows l') /\
+                       forall c t, 0 <= t < ldur l -> play l c t = play l' c t
+  | None, None => True
+  | _, _ => False
+  end.
+(* proved part: one collapse step (new_subprogram: to_waveform + global transformation) of any well-formed program
+   plays X applied to that program and keeps the duration *)
+Theorem C05_single_waveform_partial : forall prog X, lok prog ->
+  wdur (with_global (to_waveform prog) X) = ldur prog /\
+  forall c t, 0 <= t < ldur prog ->
+    usample (with_global (to_waveform prog) X) c t = chain_apply X (fun c' => play prog c' t) c.
+Proof. exact collapse_step. Qed.
+Print Assumptions C05_single_waveform_partial.
+
+(* without the guard: a node collapsed below the inner template of a time reversal (NaN at the first sample, wrong
+   piece at the junction), and a collapsed parallel-channel node below an arithmetic template *)
+Theorem C05_single_waveform_refuted_reversal : exists p S, ~ same_play p S.
+Proof. exists w_rev, [3%N]. exact refute_single_reversal. Qed.
+Print Assumptions C05_single_waveform_refuted_reversal.
+Theorem C05_single_waveform_refuted_parallel : exists p S, ~ same_play p S.
+Proof. exists w_par_times_2, [2%N]. exact refute_single_parallel. Qed.
+Print Assumptions C05_single_waveform_refuted_parallel.
+
+(* the guards are satisfiable by a non-trivial input (arithmetic around a parallel channel, reversal, repetition,
+   three collapsed nodes) and the guarded theorem is not vacuous on it *)
+Example C05_guards_satisfiable :
+  guard_C05_single_waveform [13%N; 14%N; 17%N] w_good = true /\
+  guard_C05_parallel_order [TOffset [(1%N, 1%Q)]; TLinear [1%N] [3%N] [[2%Q]]] w_good = true /\
+  (exists l, compile w_good [13%N; 14%N; 17%N] [TOffset [(1%N, 1%Q)]; TLinear [1%N] [3%N] [[2%Q]]] = Some l /\ lok l).
+Proof. split; [vm_compute; reflexivity|]. split; [vm_compute; reflexivity|]. eexists. split; [vm_compute; reflexivity|].
+  cbn. repeat split; try discriminate; auto with zarith. Qed.
